@@ -3574,9 +3574,9 @@ static Token *function(Token *tok, Type *basety, VarAttr *attr) {
       error_tok(tok, "static declaration follows a non-static declaration");
     fn->is_definition = fn->is_definition || equal(tok, "{");
 
-    // [C11 6.7.4p7] A declaration without `inline` or with `extern`
-    // turns an inline definition into an external definition.
-    if (fn->is_inline_only && !attr->is_static &&
+    // [C11 6.7.4p7] A file-scope declaration without `inline` or with
+    // `extern` turns an inline definition into an external definition.
+    if (fn->is_inline_only && !scope->next && !attr->is_static &&
         (!attr->is_inline || attr->is_extern)) {
       fn->is_inline_only = false;
       fn->is_static = false;
